@@ -108,6 +108,12 @@ def header_list(draw: Any, h2: bool = False, max_size: int = 6) -> List[list]:
                 min_size=1, max_size=12))
         else:
             value = draw(st.text(alphabet=UNRESERVED + " ,;=/\"", min_size=1, max_size=14)).strip()
+        if max_size >= 6 and not any(len(h[1]) > 1000 for h in out) \
+                and draw(st.integers(0, 19)) == 0:
+            # one long value (a cookie, a token): several KiB, for HTTP/2 beyond 16 KiB - well
+            # within the advertised limits (16 KiB incomplete head / 64 KiB header list)
+            size = draw(st.sampled_from([5000, 20000, 40000] if h2 else [3000, 9000]))
+            value = (value + "-" + "long-cookie-value-" * (size // 18 + 1))[:size]
         if h2:
             out.append([name, value])
         else:
